@@ -14,7 +14,7 @@ Definition law_cli (v : Z) (ns : Z) (t : target) (created : list command) : bool
       bool_decide (o_kind r = verb_kind v) && bool_decide (o_name r = t_name t) &&
       bool_decide (o_uid r = t_uid t) && o_controller r &&
       bool_decide (c_owners c = [r]) &&
-      bool_decide (c_action c = verb_action v) && bool_decide (c_ns c = ns) &&
+      bool_decide (c_action c = verb_action v) && bool_decide (c_ns c = cmd_ns v ns) &&
       bool_decide (c_prefix c = (t_name t, verb_action v))
   | _ => false
   end.
